@@ -137,6 +137,12 @@ theorem C13_cycle_is_reported (fuel : Nat) (pre : List Rule) (att : List (List C
   rw [hf]
   simp only [hasCycle_of_chain folded v hv hvar y chain hy hc hend hlen, if_true]
 
+/-- … and it reports nothing else: when the test says yes, some variable rule refers to a name from which a chain of direct
+references leads back to the rule's own name - a preamble without such a chain is never rejected by the test. -/
+theorem C13_cycle_test_sound (vars : List Rule) (h : hasCycle vars = true) :
+    ∃ v ∈ vars, isVar v = true ∧ ∃ y ∈ refsOf vars (vName v), ∃ chain, Chain vars y chain ∧
+      (y :: chain).getLast? = some (vName v) := chain_of_hasCycle vars h
+
 /-- the hypotheses are met by the three-variable cycle: `a` refers to `b`, the chain `b → c → a` closes it -/
 example : resolve 10 [var "a" ["@{b}/x"], var "b" ["@{c}"], var "c" ["/y@{a}"]] [] = .error .recursive :=
   C13_cycle_is_reported 10 _ [] [var "a" ["@{b}/x"], var "b" ["@{c}"], var "c" ["/y@{a}"]] rfl
